@@ -70,7 +70,10 @@ def fifo(g, mp, yld, one, P, t=1500):
 def fifolate(mp, P):
     return {"harness": "vxH08FifoLate", "args": [str(mp)], "files": F08, "preempt": P, "reach": ["done"], "timeout_s": 1500,
             "bounds": f"3 requests sharing one symbolic tag, the third arriving after the first was answered while the second is held inside the implementation; Maxpend={mp}; <= {P} preemptions"}
-q08 = [spawn(0), spawn(2), fifolate(0, 1), fifolate(2, 1)]
+def dispatcher(mp, P):
+    return {"harness": "vxH08Dispatcher", "args": [str(mp)], "files": F08, "preempt": P, "reach": ["done"], "timeout_s": 1500,
+            "bounds": f"an implementation answering from one dispatcher goroutine: two requests sharing a symbolic tag (the second slow inside the implementation) and an unrelated request; Maxpend={mp}; <= {P} preemptions"}
+q08 = [spawn(0), spawn(2), fifolate(0, 1), fifolate(2, 1), dispatcher(0, 1), dispatcher(2, 1)]
 q08 += [{"harness": "vxH08NoLockTwin", "args": [], "files": F08, "reach": ["twin"], "bounds": "twin: a call into the implementation made with a lock held is detected"}]
 q08 += [nolock(t, a, f) for t in TT for (a, f) in ((True, True), (False, False))]
 q08 += [block(2, 0, False, True, True, 1), block(2, 2, True, True, True, 0), block(2, 0, False, True, False, 0),
